@@ -157,7 +157,7 @@ class TorchBackend:
         # Functions that require tensor inputs (not Python scalars)
         tensor_required_funcs = {
             'abs', 'trunc', 'floor', 'ceil', 'round', 'sign',
-            'sin', 'cos', 'tan', 'exp', 'log', 'sqrt',
+            'sin', 'cos', 'tan', 'tanh', 'exp', 'log', 'log10', 'sqrt',
             'isinf', 'isnan', 'isfinite',
             'minimum', 'maximum', 'fmod',
             'less', 'greater', 'less_equal', 'greater_equal',
